@@ -19,6 +19,8 @@ for sid in sorted(d for d in os.listdir(ROOT) if os.path.isdir(os.path.join(ROOT
             caught.append(f"**{c}** {cls} / {site[:70]}")
         elif isinstance(v, dict):
             caught.append(f"{c}: not reported")
+    if not m.get("checks_expected_to_detect"):
+        caught = ["**not detected** - " + (m.get("why_not_detected") or "")]
     h = hist.get(sid, {})
     miss = ("yes – " + h.get("strengthened", "")) if h.get("missed_at_first") else "no"
     print(f"| {sid} | {m['breaks_property']} | {m['needs_to_manifest']} | {'; '.join(caught) or 'n/a'} | {miss} |")
